@@ -1111,7 +1111,7 @@ def hughes(C: np.ndarray) -> np.ndarray:
     Q[:, 1] = np.array(C[:, 1, 2]-C[:, 2, 1])   # (eq. 16)
     Q[:, 2] = np.array(C[:, 2, 0]-C[:, 0, 2])
     Q[:, 3] = np.array(C[:, 0, 1]-C[:, 1, 0])
-    Q[:, 1:] /= 4.0*Q_w[:, None]
+    Q[:, 1:] /= -4.0*Q_w[:, None]  # same sign convention as the single-matrix branch
     return Q
 
 def sarabandi(dcm: np.ndarray, eta: float = 0.0) -> np.ndarray:
